@@ -1,331 +1,6 @@
-// C16 harness: the BUILD language (asp) against python3 on its documented subset.
-//
-// Three ties per generated program:
-//
-//	asp b|d <prog>   real interpreter (package file | subincluded .build_defs file)  vs  Lean asp model
-//	py <prog>        python3                                                           vs  Lean Python reference
-//	direct oracle    real interpreter vs python3 on the same text; a disagreement is classified by repairing one
-//	                 root cause at a time in the program text and re-running the real code.
+// C16 harness: see verif/harness/asplib/c16.go.
 package main
 
-import (
-	"os"
-	"regexp"
-	"sort"
-	"strings"
+import "verif/harness/asplib"
 
-	"verif/harness/lib"
-)
-
-var hugeInt = regexp.MustCompile(`[0-9]{16,}`)
-
-type repair struct {
-	key     string
-	class   string
-	pySide  bool
-	apply   func(o *PrintOpts)
-	present func(f *features) bool // class predicate: can the program exhibit this root cause at all?
-}
-
-var repairs = []repair{
-	{"G", "ops-right-operand-swallows-rest", false, func(o *PrintOpts) { o.Tree = "py" }, func(f *features) bool { return f.swallow }},
-	{"M", "int-mod-go-sign", false, func(o *PrintOpts) { o.Mod = true }, func(f *features) bool { return f.mods > 0 }},
-	{"A", "list-add-appends-in-place", false, func(o *PrintOpts) { o.AddCopy = true }, func(f *features) bool { return f.adds > 0 || f.augs > 0 }},
-	{"S", "slice-shares-backing-array", false, func(o *PrintOpts) { o.SliceCopy = true }, func(f *features) bool { return f.slices > 0 }},
-	{"SR", "sorted-reversed-in-place", false, func(o *PrintOpts) { o.SortCopy = true }, func(f *features) bool { return f.sorts > 0 }},
-	{"K", "constant-list-literal-shared", false, func(o *PrintOpts) { o.ConstFresh = true }, func(f *features) bool { return f.constLists > 0 }},
-	{"R", "augassign-rebinds-list", true, func(o *PrintOpts) { o.AugRebind = true }, func(f *features) bool { return f.augs > 0 || f.appends > 0 }},
-}
-
-type harness struct {
-	r     *lib.Run
-	asp   *AspRunner
-	py    *PyRunner
-	pyMem map[string]string
-}
-
-func (h *harness) runAsp(mode, src string) string {
-	if mode == "d" {
-		return h.asp.Defs(src)
-	}
-	return h.asp.Build(src)
-}
-
-func (h *harness) runPy(src string) string {
-	if v, ok := h.pyMem[src]; ok {
-		return v
-	}
-	v := h.py.Run(src)
-	if len(h.pyMem) > 20000 {
-		h.pyMem = map[string]string{}
-	}
-	h.pyMem[src] = v
-	return v
-}
-
-func usesTrueDiv(p []*S) bool {
-	found := false
-	var we func(e *E)
-	we = func(e *E) {
-		if e == nil {
-			return
-		}
-		for _, o := range e.Ops {
-			if o.Op == "/" {
-				found = true
-			}
-			we(o.E)
-		}
-		for _, a := range e.A {
-			we(a)
-		}
-	}
-	var ws func(ss []*S)
-	ws = func(ss []*S) {
-		for _, s := range ss {
-			for _, e := range s.E {
-				we(e)
-			}
-			for _, c := range s.Conds {
-				we(c)
-			}
-			ws(s.Body)
-			for _, b := range s.Blocks {
-				ws(b)
-			}
-		}
-	}
-	ws(p)
-	return found
-}
-
-// agrees runs the program with the given set of repairs on both sides and compares.
-func (h *harness) agrees(prog []*S, mode string, set map[string]bool) bool {
-	var ao, po PrintOpts
-	for _, rp := range repairs {
-		if set[rp.key] {
-			if rp.pySide {
-				rp.apply(&po)
-			} else {
-				rp.apply(&ao)
-			}
-		}
-	}
-	a := h.runAsp(mode, Print(prog, ao))
-	if a == "ERR" {
-		return false
-	}
-	return a == h.runPy(Print(prog, po))
-}
-
-// classify attributes a disagreement to root causes: first a single repair, then the minimal subset of all.
-func (h *harness) classify(prog []*S, mode string, f *features) []string {
-	var cands []repair
-	for _, rp := range repairs {
-		if rp.present(f) {
-			cands = append(cands, rp)
-		}
-	}
-	for _, rp := range cands {
-		if h.agrees(prog, mode, map[string]bool{rp.key: true}) {
-			return []string{rp.class}
-		}
-	}
-	all := map[string]bool{}
-	for _, rp := range cands {
-		all[rp.key] = true
-	}
-	if len(cands) < 2 || !h.agrees(prog, mode, all) {
-		return []string{"asp-python-disagree-unexplained"}
-	}
-	for _, rp := range cands {
-		delete(all, rp.key)
-		if !h.agrees(prog, mode, all) {
-			all[rp.key] = true
-		}
-	}
-	var out []string
-	for _, rp := range cands {
-		if all[rp.key] {
-			out = append(out, rp.class)
-		}
-	}
-	sort.Strings(out)
-	return out
-}
-
-// runOp handles one op line (generated or replayed).
-func (h *harness) runOp(op string) {
-	r := h.r
-	f := strings.SplitN(op, " ", 3)
-	switch {
-	case len(f) == 3 && f[0] == "asp" && (f[1] == "b" || f[1] == "d"):
-		prog, ok := DecodeProg(f[2])
-		if !ok {
-			r.Emit(op, "bad-op", false)
-			return
-		}
-		mode := f[1]
-		src := Print(prog, PrintOpts{})
-		out := h.runAsp(mode, src)
-		ft := featuresOf(prog)
-		if hugeInt.MatchString(out) {
-			// beyond 2^53 the float64 detour of `//` is no longer exact (a zero divisor yields the minimum int);
-			// the model does not follow it there.  Still subject to the direct oracle.
-			r.Count("outcome:int-beyond-2^53-not-modelled")
-		} else {
-			r.Emit(op, out, out != "ERR" && ft.size >= 8)
-		}
-		h.oracle(op, prog, mode, src, out, ft)
-	case len(f) == 2 && f[0] == "py" || len(f) == 3 && f[0] == "py":
-		rest := strings.TrimPrefix(op, "py ")
-		prog, ok := DecodeProg(rest)
-		if !ok {
-			r.Emit(op, "bad-op", false)
-			return
-		}
-		out := h.runPy(Print(prog, PrintOpts{}))
-		r.Emit(op, out, out != "ERR" && featuresOf(prog).size >= 8)
-	default:
-		r.Emit(op, "bad-op", false)
-	}
-}
-
-// oracle: the property itself on the real code — if asp evaluates the program, python3 must give the same values.
-func (h *harness) oracle(op string, prog []*S, mode, src, aspOut string, ft *features) {
-	r := h.r
-	if aspOut == "ERR" {
-		r.Count("outcome:asp-error")
-		return
-	}
-	if usesTrueDiv(prog) {
-		r.Count("outcome:true-division-not-compared")
-		return
-	}
-	pyOut := h.runPy(src)
-	if strings.HasPrefix(pyOut, "ERR") {
-		r.Count("outcome:python-error")
-		return
-	}
-	if aspOut == pyOut {
-		r.Count("outcome:agree")
-		return
-	}
-	r.Count("outcome:disagree")
-	for _, cls := range h.classify(prog, mode, ft) {
-		r.OracleFail(cls, op, "asp="+aspOut+" python3="+pyOut+" source="+strings.ReplaceAll(src, "\n", "\\n"))
-	}
-}
-
-func (h *harness) count(kind string, ft *features) {
-	r := h.r
-	r.Count("gen:" + kind)
-	if ft.swallow {
-		r.Count("feature:chain-swallows")
-	}
-	if ft.maxChain >= 3 {
-		r.Count("feature:chain>=3ops")
-	}
-	if ft.mods > 0 {
-		r.Count("feature:mod")
-	}
-	if ft.unary > 0 {
-		r.Count("feature:prefix-op")
-	}
-	if ft.lazy > 0 {
-		r.Count("feature:and-or")
-	}
-	if ft.slices > 0 {
-		r.Count("feature:slice")
-	}
-	if ft.sorts > 0 {
-		r.Count("feature:sorted-reversed")
-	}
-	if ft.defs > 0 {
-		r.Count("feature:def")
-	}
-	if ft.comps > 0 {
-		r.Count("feature:comprehension")
-	}
-	if ft.idxAssigns > 0 {
-		r.Count("feature:index-assign")
-	}
-	if ft.augs > 0 {
-		r.Count("feature:aug-assign")
-	}
-	if ft.constLists > 0 {
-		r.Count("feature:const-list")
-	}
-	if ft.nonASCII {
-		r.Count("feature:non-ascii")
-	}
-}
-
-// program sends one generated program through all ties.
-func (h *harness) program(kind string, prog []*S, modes string, model bool) {
-	prog = Normalize(prog)
-	ft := featuresOf(prog)
-	h.count(kind, ft)
-	sx := ProgSexp(prog)
-	if !model {
-		// oracle only: outside the modelled core (non-ASCII text, …)
-		src := Print(prog, PrintOpts{})
-		for _, m := range modes {
-			out := h.runAsp(string(m), src)
-			h.oracle("asp "+string(m)+" "+sx, prog, string(m), src, out, ft)
-		}
-		return
-	}
-	for _, m := range modes {
-		h.runOp("asp " + string(m) + " " + sx)
-	}
-	if !usesTrueDiv(prog) {
-		h.runOp("py " + sx)
-	}
-}
-
-func main() {
-	r := lib.Start()
-	defer r.Finish()
-	r.Rule = "asp evaluated the program without error and the program has at least 8 syntax nodes; distinct by op line"
-	scratch := os.Getenv("VERIF_SCRATCH")
-	if scratch == "" {
-		scratch = r.OutDir
-	}
-	h := &harness{r: r, asp: NewAspRunner(scratch), py: NewPyRunner(scratch), pyMem: map[string]string{}}
-	defer h.py.Close()
-	if ops := r.ReplayOps(); ops != nil {
-		for _, op := range ops {
-			h.runOp(op)
-		}
-		return
-	}
-
-	// 1. exhaustive operator sequences over a representative operator set (fixed operands)
-	opset := []string{"+", "-", "*", "%", "//", "<", "==", "and", "or"}
-	for n := 1; n <= r.N(3, 4); n++ {
-		exhaustiveChains(opset, n, func(p []*S) { h.program("chain-exhaustive", p, "b", true) })
-	}
-	r.Exhaust = true
-
-	// 2. random programs
-	for i := 0; i < r.N(700, 12000); i++ {
-		g := NewG(r.Rng)
-		g.div = r.Rng.Chance(10)
-		h.program("chain-random", g.ChainProgram(), "bd", true)
-	}
-	for i := 0; i < r.N(500, 9000); i++ {
-		g := NewG(r.Rng)
-		h.program("scenario", g.Scenario(i%nScenarios), "bd", true)
-	}
-	for i := 0; i < r.N(900, 16000); i++ {
-		g := NewG(r.Rng)
-		h.program("program", g.Program(), "bd", true)
-	}
-	// 3. outside the modelled core: non-ASCII text (oracle only)
-	for i := 0; i < r.N(150, 2500); i++ {
-		g := NewG(r.Rng)
-		g.ascii = false
-		h.program("program-nonascii", g.Program(), "bd", false)
-	}
-}
+func main() { asplib.MainC16() }
